@@ -1,6 +1,7 @@
 (** Protocol operations for C07 (see Lib/Val.v, Run/PbcmplOps.v). *)
 From Coq Require Import ZArith List Bool String.
-From Low Require Import Lib.BitSeq Lib.Bytes Lib.Val Model.Pbcmpl Spec.PbcmplSpec Run.PbcmplOps.
+From Low Require Import Lib.BitSeq Lib.Bytes Lib.Val Model.Pbcmpl Model.PbcmplWalk Model.PbcmplEncErr Spec.PbcmplSpec Spec.PbcmplWalkSpec
+  Run.PbcmplOps Run.PbcmplWalkOps.
 Import ListNotations.
 Open Scope string_scope.
 Open Scope Z_scope.
@@ -50,5 +51,51 @@ Definition ops_C07 : list opdef := [
        | [k; m; sc] => match as_z k, as_msg m, as_script sc with
            | Some k, Some m, Some sc => v_marshal_spec k sc m
            | _, _, _ => VBad end
-       | _ => VBad end) |}
+       | _ => VBad end) |};
+  (* widening: [kind, [chunk, chunk, ...], terminal kind, with last]: the reader delivers exactly these chunks,
+     EMPTY ones included (a Read that returns (0, nil)); the last chunk must not be empty.  Same observation
+     and same specification (on the concatenation) as pbcmpl.Unmarshal/stream *)
+  {| op_name := "pbcmpl.Unmarshal/chunks";
+     op_run := fun a => match a with
+       | [k; cs; tk; wl] => match as_z k, as_zss cs, as_z tk, as_bool wl with
+           | Some k, Some cs, Some tk, Some wl =>
+               if kind_ok k && forallb bytes_okb cs && negb (is_nil (last cs [0])) then v_stream_model k (cs, term_of tk wl)
+               else VBad
+           | _, _, _, _ => VBad end
+       | _ => VBad end;
+     op_spec := fun a obs => match a with
+       | [k; cs; tk; wl] => match as_z k, as_zss cs, as_z tk, as_bool wl with
+           | Some k, Some cs, Some tk, Some wl =>
+               val_eqb (v_stream_spec k EEOF (List.concat cs) (term_of tk wl)) obs
+               || val_eqb (v_stream_spec k EUnexpectedEOF (List.concat cs) (term_of tk wl)) obs
+           | _, _, _, _ => false end
+       | _ => false end |};
+  (* widening: [stream bytes, chunk pattern, terminal kind, with last] -> arbitrary bytes walked with
+     ReadHeader + io.ReadFull: [[[n, errclass, ver, hsize, bsize, body bytes, refused] per step], left] *)
+  {| op_name := "pbcmpl.Walk/bytes";
+     op_run := fun a => match a with
+       | [s; pat; tk; wl] => match as_zs s, as_zs pat, as_z tk, as_bool wl with
+           | Some s, Some pat, Some tk, Some wl =>
+               if bytes_okb s && all_pos pat then v_walk_model (chunks_of pat s, term_of tk wl) else VBad
+           | _, _, _, _ => VBad end
+       | _ => VBad end;
+     op_spec := fun_spec (fun a => match a with
+       | [s; pat; tk; wl] => match as_zs s, as_z tk, as_bool wl with
+           | Some s, Some tk, Some wl => v_walk_spec s (term_of tk wl)
+           | _, _, _ => VBad end
+       | _ => VBad end) |};
+  (* widening: [[hasver, ver, payload], [[accept, fail], ...]] with a message whose own Marshal fails
+     -> [n, errclass, bytes that reached the writer, HeaderSize(msg)]; the property's words: count 0, the
+     message's error, nothing written *)
+  {| op_name := "pbcmpl.Marshal/encerr";
+     op_run := fun a => match a with
+       | [m; sc] => match as_msg m, as_script sc with
+           | Some m, Some sc =>
+               match Marshal_opt (fun _ : list Z => None) swrite (sc, []) (snd m) (fst m) with
+               | None => VPanic
+               | Some (n, ec, (_, out)) => VL [VZ n; VZ ec; vzs out; VZ (HeaderSizeOf (snd m))]
+               end
+           | _, _ => VBad end
+       | _ => VBad end;
+     op_spec := fun_spec (fun a => VL [VZ 0; VZ 7; vzs []; VZ 32]) |}
 ].
